@@ -20,7 +20,7 @@ RULE = ('strata: A = every grammatical token sequence over {(,),and,or,not,check
         'leaves numbered left to right, and again with only one or two distinct leaves repeated; three leaf families (role checks, attribute checks, attribute names that begin with the letters of a keyword); B = random ASTs (<= ~60 tokens, leaf reuse, constants) each in '
         'several lexical variants (keyword case, ASCII whitespace, glued parentheses, redundant groups); '
         'D = deeply nested legal expressions (1-40 chained not, alternating and/or/not towers of depth 2-25, within ~60 tokens); C = every list-of-lists shape (outer<=3, inner<=3) over {leaf, other leaf, @, !, bare string, '
-        'empty entry}; K = constant rules; every seventh sentence of A is parsed immediately after a malformed rule (lone operator, unbalanced parenthesis, dangling operator ...) in the same thread; F = slice of A/B carried through real JSON and YAML policy files; O = two threads each load and decide a rule at the same time (second one runs at sampled line boundaries of the first, deterministic scheduler): results must be those of running them one after the other. '
+        'empty entry}; K = constant rules; every seventh sentence of A is parsed immediately after a malformed rule (lone operator, unbalanced parenthesis, dangling operator ...) in the same thread; F = slice of A/B carried through real JSON and YAML policy files; every eleventh sentence of A is, after being decided, registered as the default of a policy with a deprecated predecessor in another enforcer (merged when enforce_new_defaults is off) and then parsed and decided again: the text must mean the same; O = two threads each load and decide a rule - or both evaluate ONE parsed rule with wide and/or nodes - at the same time (second one runs at sampled line boundaries of the first, deterministic scheduler): results must be those of running them one after the other. '
         'Each case is decided under all 2^k role (or attribute) assignments. A case is non-trivial when its '
         'reference truth table is not constant; distinct = distinct rule value.')
 ASSUMPTIONS = [
@@ -35,7 +35,7 @@ LEVEL_TEXT = ('Every grammatical sentence up to 11 (thorough: 15) tokens and eve
 LEVEL_NOTE = ('trusted: the reference evaluator/recogniser in pv/gen/expr.py; leaf checks (role:, attribute) behave as '
               'C04/C05 state; only ASCII whitespace is generated')
 PLAN = {'quick': dict(shards=4, wall=60), 'thorough': dict(shards=16, wall=420)}
-MIN = {'overlapping_evaluations': 200, 'deep_cases': 20, 'parsed_after_malformed_rule': 100, 'sentences_with_repeated_leaves': 500, 'evaluations': 200, 'decisions': 2000, 'allow_decisions': 100, 'deny_decisions': 100}
+MIN = {'overlapping_evaluations': 200, 'shared_tree_overlaps': 4, 'reparsed_after_use_as_deprecated_default': 100, 'deep_cases': 20, 'parsed_after_malformed_rule': 100, 'sentences_with_repeated_leaves': 500, 'evaluations': 200, 'decisions': 2000, 'allow_decisions': 100, 'deny_decisions': 100}
 ANCHORS = ['oslo_policy.policy:Enforcer.enforce', 'oslo_policy._parser:parse_rule',
            'oslo_policy._parser:_parse_tokenize', 'oslo_policy._parser:_parse_list_rule',
            'oslo_policy._parser:ParseState._wrap_check', 'oslo_policy._parser:ParseState._make_and_expr',
@@ -74,7 +74,7 @@ class Real:
         self.enf = policy.Enforcer(self.conf, use_conf=False)
         self.enf2 = policy.Enforcer(env.fresh_conf(), use_conf=False)
 
-    def table(self, value, k, family, via='dict', fmt='json', poison=None):
+    def table(self, value, k, family, via='dict', fmt='json', poison=None, extra_roles=()):
         """Decision for every truth assignment: list of bool / 'EXC:Type'.  `poison`: a malformed rule that is loaded
         immediately before (same thread, same parser) - parsing one rule must not influence the next."""
         creds_of = FAMILIES[family][1]
@@ -95,7 +95,11 @@ class Real:
         try:
             for truth in expr.assignments(k):
                 try:
-                    out.append(bool(enf.enforce('p', {}, creds_of(truth))))
+                    creds = creds_of(truth)
+                    if extra_roles:
+                        # roles the rule does not mention: they cannot matter
+                        creds = dict(creds, roles=list(creds.get('roles', [])) + list(extra_roles))
+                    out.append(bool(enf.enforce('p', {}, creds)))
                 except Exception as e:
                     out.append('EXC:' + type(e).__name__)
         finally:
@@ -134,6 +138,15 @@ def check_case(ctx, real, case):
         if case.get('poison') is not None:
             ctx.count('parsed_after_malformed_rule')
         record(ctx, case, text, got, want, 'A')
+        if case.get('reuse_as_default') is not None:
+            use_as_default(real, text, bool(case['reuse_as_default']))
+            again = real.table(text, k, fam, extra_roles=['pv_deprecated'])       # the requester also holds the deprecated default's role
+            ctx.count('reparsed_after_use_as_deprecated_default')
+            if again != want:
+                ctx.violation('meaning-of-text-changed-after-use-as-registered-default', case,
+                              {'rule': text, 'expected': want, 'observed_when_parsed_again': again,
+                               'in_between': 'registered as the default of a policy with a deprecated predecessor, loaded with '
+                                             'enforce_new_defaults=%s, enforced once' % (not case['reuse_as_default'])})
     elif s == 'B':
         ast = totuple(case['ast'])
         k = case['k']
@@ -172,6 +185,23 @@ def check_case(ctx, real, case):
         record(ctx, case, value, got, want, 'K', key='constant-rule-mismatch')
     for name, info in contracts.drain():
         ctx.violation('contract-' + name, case, {'contract': name, 'observed': info})
+
+
+def use_as_default(real, text, flag_off):
+    """The service registers a policy whose default is `text` and which has a deprecated predecessor, loads it (the
+    deprecated default is merged when enforce_new_defaults is off) and decides it once.  None of this may change what the
+    TEXT means the next time it is parsed."""
+    P = real.policy
+    conf = env.fresh_conf(enforce_new_defaults=not flag_off)
+    enf = P.Enforcer(conf, use_conf=False)
+    dep = P.DeprecatedRule('pv:old', 'role:pv_deprecated', deprecated_reason='r', deprecated_since='s')
+    enf.register_default(P.RuleDefault('pv:new', text, deprecated_rule=dep))
+    enf.suppress_deprecation_warnings = True
+    try:
+        enf.load_rules(True)
+        enf.enforce('pv:new', {}, {'roles': ['pv_deprecated']})
+    except Exception:
+        pass
 
 
 def record(ctx, case, value, got, want, stratum, key=None):
@@ -275,16 +305,68 @@ def gen_overlap(ctx, i):
         fam = rnd.choice(['role', 'attr', 'kw'])
         text = expr.spell(expr.to_tokens(ast, FAMILIES[fam][0]))
         ops.append(dict(text=text, k=k, fam=fam, want=ref_table(ast, k)))
+    if i % 2:
+        # shared mode: ONE parsed rule (wide and/or nodes), evaluated by both threads at the same time, each walking the
+        # truth assignments in its own order - evaluating a check tree must not change it
+        k = rnd.randint(3, 4)
+        ast = (rnd.choice(['and', 'or']), [wide(rnd, k, 2) for _ in range(rnd.randint(2, 3))])
+        fam = rnd.choice(['role', 'attr'])
+        text = expr.spell(expr.to_tokens(ast, FAMILIES[fam][0]))
+        order = list(range(2 ** k))
+        rnd.shuffle(order)
+        return dict(s='O', shared=dict(text=text, k=k, fam=fam, want=ref_table(ast, k), order_b=order),
+                    rseed='%s.%d.%d' % (ctx.tier, ctx.shard, i))
     if rnd.random() < 0.3:
         # one of the two is a malformed rule: it denies, and must not disturb the sentence parsed beside it
         ops[rnd.randint(0, 1)] = dict(text=rnd.choice(POISON), k=1, fam='role', want=[False, False])
     return dict(s='O', ops=ops, rseed='%s.%d.%d' % (ctx.tier, ctx.shard, i))
 
 
+def wide(rnd, k, depth):
+    """and/or nodes with three or four operands over k leaves (every leaf index may repeat)."""
+    if depth == 0 or rnd.random() < 0.3:
+        leaf = ('leaf', rnd.randrange(k))
+        return ('not', leaf) if rnd.random() < 0.25 else leaf
+    return (rnd.choice(['and', 'or']), [wide(rnd, k, depth - 1) for _ in range(rnd.randint(3, 4))])
+
+
+def check_shared_overlap(ctx, real, case):
+    from pv.mon import overlap
+    sh = case['shared']
+    creds_of = FAMILIES[sh['fam']][1]
+    truths = list(expr.assignments(sh['k']))
+    real.enf.set_rules(real.policy.Rules.from_dict({'p': sh['text']}))
+
+    def mk(order):
+        def make():
+            def run_():
+                out = {}
+                for i in order:
+                    try:
+                        out[i] = bool(real.enf.enforce('p', {}, creds_of(truths[i])))
+                    except Exception as e:
+                        out[i] = 'EXC:' + type(e).__name__
+                return [out[i] for i in range(len(truths))]
+            return run_
+        return make
+    ctx.case(['O-shared', sh['text'], sh['order_b']], True, 'O')
+    ctx.count('shared_tree_overlaps')
+    ok = overlap.pair(ctx, mk(range(len(truths))), mk(sh['order_b']), case,
+                      {'rule': sh['text'], 'both_threads_evaluate_the_same_parsed_rule': True, 'expected': [sh['want'], sh['want']]},
+                      ctx.sub_rnd('Ob', case['rseed']), limit=140)
+    if ok:
+        got = mk(range(len(truths)))()()
+        if got != sh['want']:
+            ctx.violation('decision-mismatch', case, {'rule': sh['text'], 'expected': sh['want'], 'observed': got,
+                                                      'after': 'overlapping evaluations of the same parsed rule'})
+
+
 def check_overlap(ctx, real, case):
     """Two threads each load a rule text (own Rules object, own enforcer) and decide it under all assignments while the
     other does the same with another text: parser and check classes must keep nothing shared between the two."""
     from pv.mon import overlap
+    if case.get('shared'):
+        return check_shared_overlap(ctx, real, case)
     a, b = case['ops']
 
     def mk(op, enf):
@@ -337,6 +419,8 @@ def cases(ctx):
                 yield dict(s='A', toks=list(seq), fam=('role', 'kw')[idx % 2], reuse=1 + (idx // 2) % 2)
             if idx % 7 == 3:
                 case['poison'] = POISON[(idx // 7) % len(POISON)]
+            if idx % 11 == 5:
+                case['reuse_as_default'] = (idx // 11) % 2
             if idx % b['file_every'] == 0:
                 case.update(via='file', fmt='yaml' if (idx // b['file_every']) % 2 else 'json')
             idx += 1
@@ -371,6 +455,7 @@ def cases(ctx):
 
 
 def run(ctx):
+    ctx.reserve(0.8)          # the strata that come last (overlapping operations) keep a fifth of the wall budget
     contracts.parse_state_stacks_parallel()
     contracts.parse_rule_returns_check()
     real = Real()
@@ -380,6 +465,7 @@ def run(ctx):
                 s['exhaustive'] = False
             break
         check_case(ctx, real, case)
+    ctx.release()
     # O: overlapping operations last (the line-level scheduler slows everything that runs after it is installed)
     from pv.mon import sched
     ctx.stratum('O', exhaustive=False)
